@@ -193,6 +193,9 @@ def apply_fills_marks(st, total, lastpx, openfills):
     """update the fill bookkeeping with the accepted marks and fills of one step, in the order the code made them"""
     for m in st['marks']:
         if m['ok'] and m['held']:
+            if m['price'] != m['price']:
+                lastpx.pop((m['pid'], m['asset']), None)     # marked with NaN (no quote): the value is not judged until a price is seen
+                continue
             lastpx[(m['pid'], m['asset'])] = fx(m['price'])
     for t in st['txns']:
         if not t['ok']:
@@ -212,8 +215,17 @@ def c02(trace):
     out = Out()
     total, lastpx, openfills = {}, {}, {}
     pre = trace['init']
+    ordered = {}
     for i, st in enumerate(trace['steps']):
         post = st['post']
+        # a fill is in the asset, and for the quantity, of the order it executes (symbols are compared as they were given)
+        if st['op'][0] == 'submit' and st['out'] == 'ok' and st.get('order_id') is not None:
+            ordered.setdefault(st['order_id'], []).append((st['op'][2], st['op'][3]))
+        if st['op'][0] == 'update':
+            for t in st['txns']:
+                if t.get('id') in ordered and (t['asset'], t['qty']) not in ordered[t['id']]:
+                    out.add(i, 'the fill of order %s is booked as %+d %r; the order was for %r' % (t['id'], t['qty'], t['asset'], ordered[t['id']]),
+                            'fill-differs-from-its-order')
         apply_fills_marks(st, total, lastpx, openfills)
         tol = F(snap_scale(pre, post)) / 10 ** 9 + F(1, 10 ** 9)
         if st['op'][0] == 'update' and st['out'] == 'ok':
